@@ -486,23 +486,25 @@ def plottable_spec(ctx, cls: str, rule: str = 'R10.4') -> List[Ob]:
     x = attr('self', 'x')
     xlen = ln(x)
     sizes = env.lens
-    xs = [(C.show(r[1]) if r[0] == 'store' else 'slice', r) for k, r in stores if k == 'x_plot']
-    ys = [r for k, r in stores if k == 'y_plot']
+    rets = [n for n in ast.walk(fi.node) if isinstance(n, ast.Return) and isinstance(n.value, ast.Tuple) and len(n.value.elts) == 2]
+    if not rets or not all(isinstance(e, ast.Name) for e in rets[0].value.elts):
+        return [inconclusive(rule, f"{fi.name}: returns two named arrays", fi.loc(), construct=_fn(fi))]
+    XP, YP = [e.id for e in rets[0].value.elts]
     # sizes
     want_x = C.sub(C.scale(xlen, 2), C.const(2))
-    got_x = sizes.get(('n', 'x_plot'))
+    got_x = sizes.get(('n', XP))
     _req(obs, rule, fi, "the plotted x-array has 2 len(x) - 2 points (every interior breakpoint twice)", got_x == want_x,
          C.show(got_x) if got_x is not None else 'missing', 'x-size')
     sx = {ast.unparse(n.targets[0]): ast.unparse(n.value) for n in ast.walk(fi.node) if isinstance(n, ast.Assign)}
     _req(obs, rule, fi, "x-array: x[0], then odd positions x[1:], even positions x[1:-1]",
-         sx.get('x_plot[0]') == 'self.x[0]' and sx.get('x_plot[1::2]') == 'self.x[1:]' and sx.get('x_plot[2::2]') == 'self.x[1:-1]',
-         str({k: v_ for k, v_ in sx.items() if k.startswith('x_plot')}), 'x-fill')
+         sx.get(f'{XP}[0]') == 'self.x[0]' and sx.get(f'{XP}[1::2]') == 'self.x[1:]' and sx.get(f'{XP}[2::2]') == 'self.x[1:-1]',
+         str({k: v_ for k, v_ in sx.items() if k.startswith(XP)}), 'x-fill')
     if cls == 'PieceWiseConstFunc':
-        _req(obs, rule, fi, "y-array: each piece value at both of its ends", sx.get('y_plot[::2]') == 'self.y' and sx.get('y_plot[1::2]') == 'self.y'
-             and sx.get('y_plot') == 'np.empty(2 * len(self.y))', str({k: v_ for k, v_ in sx.items() if k.startswith('y_plot')}), 'y-fill')
+        _req(obs, rule, fi, "y-array: each piece value at both of its ends", sx.get(f'{YP}[::2]') == 'self.y' and sx.get(f'{YP}[1::2]') == 'self.y'
+             and sx.get(YP) == 'np.empty(2 * len(self.y))', str({k: v_ for k, v_ in sx.items() if k.startswith(YP)}), 'y-fill')
     else:
-        _req(obs, rule, fi, "y-array: start value and end value of each piece alternate", sx.get('y_plot[0::2]') == 'self.y1' and sx.get('y_plot[1::2]') == 'self.y2'
-             and sx.get('y_plot') == 'np.empty_like(x_plot)', str({k: v_ for k, v_ in sx.items() if k.startswith('y_plot')}), 'y-fill')
+        _req(obs, rule, fi, "y-array: start value and end value of each piece alternate", sx.get(f'{YP}[0::2]') == 'self.y1' and sx.get(f'{YP}[1::2]') == 'self.y2'
+             and sx.get(YP) == f'np.empty_like({XP})', str({k: v_ for k, v_ in sx.items() if k.startswith(YP)}), 'y-fill')
     return obs
 
 
@@ -542,10 +544,11 @@ def class_siblings(ctx, rule: str = 'R10.2') -> List[Ob]:
     obs: List[Ob] = []
     a = repo.func('pyspike.PieceWiseConstFunc', 'PieceWiseConstFunc.avrg')
     b = repo.func('pyspike.PieceWiseLinFunc', 'PieceWiseLinFunc.avrg')
-    cmp = Comparer(Side(a, label='PWC'), Side(b, label='PWL'), title='PieceWiseConstFunc.avrg ~ PieceWiseLinFunc.avrg')
+    from .compare import run_with_local_pairing
     t = "PieceWiseConstFunc.avrg and PieceWiseLinFunc.avrg are the same routine (sibling agreement)"
     try:
-        cmp.run()
+        cmp = run_with_local_pairing(lambda ren: Comparer(Side(a, label='PWC'), Side(b, rename=ren, label='PWL'),
+                                                          title='PieceWiseConstFunc.avrg ~ PieceWiseLinFunc.avrg'), a, b, {}, {})
         if cmp.mismatches:
             m = cmp.mismatches[0]
             obs.append(violation(rule, t, f"{m.loc_a} / {m.loc_b}", key=f"avrg-siblings::{m.kind}::{m.what}::{m.form_a}::{m.form_b}", detail=m.text()))
